@@ -164,3 +164,31 @@ def gen_generated(r, algo=None, tier="quick"):
            "interactive_prob": i, "query_prob": q, "batch_prob": b,
            "cpu_io_ratio": r.choice([0, 0.25, 0.5, 0.75, 1]), "random_seed": r.randint(0, 10 ** 6)}
     return {"kind": "sys", "cfg": cfg}
+
+
+def gen_uncontended(r, tier="quick"):
+    """one chain, one pool (two for priority-pool) with resources far above the demand"""
+    algo = r.choice(["naive", "priority", "priority-pool", "overbook", "template"])
+    tps = r.choice([1, 2, 3, 5, 10, 20, 100])
+    unit = F(20, tps)
+    n = r.randint(1, 5)
+    ops = []
+    total = 0
+    for i in range(n):
+        segs = []
+        for _ in range(r.choice([1, 1, 2, 3])):
+            cq = F(r.choice([0, 0, 1, 2, 3, 7, 12])) + F(r.choice([13, 37, 50, 71]), 100)
+            rq = F(r.choice([0, 0, 1, 2, 5]))
+            if rq or r.random() < 0.3:
+                rq += F(r.choice([13, 50, 87]), 100)      # off the grid: on-grid sizes are inside the float band
+            mem = None if r.random() < 0.5 else r.choice(["0", "0.5", "2"])
+            segs.append([fstr(cq / tps), r.choice(LAWS), mem, fstr(rq * unit)])
+            total += int(cq) + int(rq) + 2
+        ops.append({"par": [i - 1] if i else [], "segs": segs})
+    at = r.randint(0, 5)
+    ram = max(1000, int(200 * unit) + 1000)
+    cfg = {"algo": algo, "tps": tps, "duration": float(F(at + total + r.randint(3, 10), tps)),
+           "pools": 2 if algo == "priority-pool" else 1, "cpus": r.choice([1, 2, 4, 10, 16, 64]), "ram": ram,
+           "multi": True if algo == "priority-pool" else r.random() < 0.5, "over": algo == "overbook"}
+    prio = r.choice(PRIOS)
+    return {"kind": "sys", "cfg": cfg, "pipes": [{"prio": prio, "at": at, "id": "p1", "ops": ops}]}
